@@ -909,8 +909,23 @@ func genC13Relay(c *ctx) {
 	for pass, env := range [][]string{{"C13_PERTURBED=1"}, {"C13_PERTURBED=1", "VERIF_VL=1"}, {"C13_PERTURBED=1", "VERIF_VL=1", "C13_SCHED=1", drv}} {
 		cases, stats := filepath.Join(tmp, fmt.Sprintf("cases%d", pass)), filepath.Join(tmp, fmt.Sprintf("stats%d", pass))
 		vpSeed := c.rng.Int63()
-		run(tmp, append(env, fmt.Sprintf("VERIF_VP_SEED=%d", vpSeed), "VERIF_VP_COUNT_FILE="+filepath.Join(tmp, "vpcount")), filepath.Join(tmp, "corr_overlay"),
-			"relay_inner", fmt.Sprint(vpSeed%1000000007), c.tier, cases, stats)
+		// the relay under test may panic (a worker flushing into a channel the readers have
+		// closed): that ends the inner process; it is reported, the other passes still run
+		inner := exec.Command(filepath.Join(tmp, "corr_overlay"), "relay_inner", fmt.Sprint(vpSeed%1000000007), c.tier, cases, stats)
+		inner.Dir = tmp
+		inner.Env = append(append(os.Environ(), env...), fmt.Sprintf("VERIF_VP_SEED=%d", vpSeed), "VERIF_VP_COUNT_FILE="+filepath.Join(tmp, "vpcount"))
+		if out, err := inner.CombinedOutput(); err != nil {
+			txt := string(out)
+			if i := strings.Index(txt, "panic:"); i >= 0 {
+				txt = txt[i:]
+			}
+			if len(txt) > 1500 {
+				txt = txt[:1500]
+			}
+			c.violate(fmt.Sprintf("relay-inner-crash-pass%d", pass+1), "the overlay build of the relay harness died in pass "+fmt.Sprint(pass+1)+" (the relay panicked or the harness failed): "+err.Error(),
+				txt+fmt.Sprintf(" | VERIF_VP_SEED=%d", vpSeed))
+			continue
+		}
 		js, err := os.ReadFile(stats)
 		if err != nil {
 			panic(err)
